@@ -158,10 +158,20 @@ def _estimator(spec):
         return None
     if spec == "cutoff1":  # one tiny relative cutoff: plain least squares on the training set, nothing to select
         return Ridge2FoldCV(alphas=[1e-9], alpha_type="relative", regularization_method="cutoff")
+    # the user's estimator object has a HISTORY: it was configured differently and fitted on other data before, then
+    # re-configured through set_params - it must behave like a freshly constructed one with the final parameters
+    Xp = np.cos(np.arange(24, dtype=float).reshape(8, 3) * 0.7) * 2.0
+    Yp = np.sin(np.arange(16, dtype=float).reshape(8, 2) * 1.3) + 0.5 * Xp[:, :2]
     if spec == "fixed":
-        return Ridge2FoldCV(alphas=[1e-3], alpha_type="absolute", regularization_method="tikhonov", shuffle=False)
+        e = Ridge2FoldCV(alphas=[0.5, 0.01], alpha_type="relative", regularization_method="cutoff", scoring="neg_mean_absolute_error", shuffle=True, random_state=3)
+        e.fit(Xp, Yp)
+        e.set_params(alphas=[1e-3], alpha_type="absolute", regularization_method="tikhonov", scoring=None, shuffle=False, random_state=None)
+        return e
     if spec == "msecv":  # model selection by (rotation-invariant) mean squared error over a grid
-        return Ridge2FoldCV(alphas=np.geomspace(1e-4, 1e2, 9), alpha_type="absolute", regularization_method="tikhonov", scoring=None, shuffle=False)
+        e = Ridge2FoldCV(alphas=np.geomspace(1e-4, 1e2, 9), alpha_type="absolute", regularization_method="tikhonov", scoring="neg_mean_absolute_error", shuffle=False)
+        e.fit(Xp, Yp)
+        e.set_params(scoring=None)
+        return e
     return Ridge(alpha=1e-2, fit_intercept=False)
 
 
@@ -240,6 +250,15 @@ def check(case):
                     continue
                 if g > 1e-6:
                     return r.fail("gre-not-zero-on-contained-information", "GRE(X, XA) = %.3g for A = %s (indices %s, estimator %s)" % (g, A.tolist(), idx, est))
+            # integer-valued sources (counts) handed over with an integer dtype: same values, same measures
+            Xi = np.round(X * 4.0)
+            if np.linalg.matrix_rank(Xi[0::2]) == Xi.shape[1] and np.linalg.matrix_rank(Xi[1::2]) == Xi.shape[1]:
+                Yi = Xi @ A
+                for name in ("GRE", "LRE"):
+                    vi = float(ev(name, Xi.astype(np.int64), Yi, "disjoint", "cutoff1"))
+                    vf = float(ev(name, Xi, Yi, "disjoint", "cutoff1"))
+                    if abs(vi - vf) > 1e-9 * max(1.0, vf) or vi > 1e-6:
+                        return r.fail("integer-typed-source-changes-the-measure", "%s: integer dtype %.6g, float %.6g (contained information: both ~ 0)" % (name, vi, vf))
             r.nontrivial = bool(np.abs(A).sum() > min(A.shape))
             r.outcome = ["contained", A.tolist()]
             return r
